@@ -1,20 +1,24 @@
 #!/bin/bash
-# Regression of the seeded breaking changes (seeded/<id>/patch.diff): each is applied to /repo's
-# working tree, the property's quick check must exit 1 with a VIOLATION line, then it is reverted.
+# Regression of the seeded breaking changes (seeded/<id>/patch.diff). Each is applied to a scratch
+# worktree of /repo (VERIF_REPO points the checks at it; /repo itself is not touched), the
+# property's quick check must exit 1 with a VIOLATION line, and the worktree is removed.
 # usage: seed_regress.sh [id ...]     (default: all)
 cd /verif || exit 2
+. ./env.sh
+go build -o bin/vcheck ./cmd/vcheck || exit 2
 ids=("$@"); [ ${#ids[@]} -eq 0 ] && ids=($(ls seeded))
 fail=0
+W=$(mktemp -d /tmp/seedwt.XXXX)
+trap 'git -C /repo worktree remove --force "$W/wt" 2>/dev/null; rm -rf "$W" /tmp/verif-altmod-*; git -C /repo worktree prune' EXIT
+git -C /repo worktree add -q --detach "$W/wt" HEAD || exit 2
 for id in "${ids[@]}"; do
   prop=$(python3 -c "import json;print(json.load(open('seeded/$id/meta.json'))['property'])")
-  if [ -n "$(git -C /repo status --porcelain)" ]; then echo "/repo not clean"; exit 2; fi
-  if ! git -C /repo apply "/verif/seeded/$id/patch.diff" 2>/dev/null; then echo "$id: patch does not apply"; fail=1; continue; fi
-  out=$(mktemp); t0=$(date +%s)
-  VCHECK_EVIDENCE_DIR=$(mktemp -d /tmp/seed_ev.XXXX) ./run_check.sh "$prop" quick > "$out" 2>&1; rc=$?
-  git -C /repo checkout -- . ; git -C /repo clean -fdq
+  git -C "$W/wt" checkout -q -- . ; git -C "$W/wt" clean -fdq
+  if ! git -C "$W/wt" apply "/verif/seeded/$id/patch.diff" 2>/dev/null; then echo "$id: patch does not apply"; fail=1; continue; fi
+  out="$W/out.txt"; t0=$(date +%s)
+  VERIF_REPO="$W/wt" VCHECK_EVIDENCE_DIR="$W/ev" ./bin/vcheck check --tier quick "$prop" > "$out" 2>&1; rc=$?
   n=$(grep -c "^VIOLATION" "$out")
-  echo "$id: check $prop exit=$rc violation_lines=$n ($(( $(date +%s) - t0 ))s) $(grep -m1 '^violation:' "$out" | cut -c1-140)"
+  echo "$id: check $prop exit=$rc violation_lines=$n ($(( $(date +%s) - t0 ))s) $(grep -m1 '  violation:' "$out" | cut -c1-150)"
   if [ "$rc" != 1 ] || [ "$n" = 0 ]; then fail=1; echo "$id: NOT DETECTED"; fi
-  rm -f "$out"
 done
 exit $fail
